@@ -5,6 +5,7 @@ import Blots.Drv.Eval
 import Blots.Drv.NumText
 import Blots.Drv.Json
 import Blots.Drv.Ident
+import Blots.Drv.ExprPeg
 /-
   Line-protocol driver for the executable model: one request per line, one response per
   line.  A request is the inside of an S-expression list: `cmd arg …`.
@@ -15,6 +16,7 @@ open Blots
 def handlers : List (List Sx → Option String) := [
   Drv.handleJson,
   Drv.handleIdent,
+  Drv.handleExprPeg,
   Drv.handleUnits,
   Drv.handleNumText,
   Drv.handleCore,
